@@ -12,7 +12,11 @@ func main() {
 		Rule: "random well-typed-by-construction Lua programs (generator luagen, core feature mix: every operator with constant/local/upvalue/global/field operands, " +
 			"single and multiple assignment incl. swaps, all loop kinds, break, goto shapes) printed one statement per line; each is run on the real interpreter " +
 			"and its emit trace/results/error compared in Coq with the reference evaluator; non-trivial = at least 5 emitted rows or an error outcome; distinct by Gallina term; " +
-			"fragment mode: straight-line chunks inside the transcribed fragment of compile.go (coq/CC), each counted non-trivial, whose dumped prototype must equal the transcription's (frag_tie)",
+			"fragment mode: straight-line chunks inside the transcribed fragment of compile.go (coq/CC), each counted non-trivial, whose dumped prototype must equal the transcription's (frag_tie); " +
+			"w5-matrix mode (each counted non-trivial): lists of values of every kind (constants, locals, upvalues, globals, fields, arithmetic, and/or in value context, comparisons, concatenations, " +
+			"closed/open calls, method calls, varargs) in every list context (multiple assignment to local/upvalue/global/field/computed-index targets with fewer/equal/more values, local lists, call and " +
+			"method arguments, table constructors, return lists, operand pairs) with every target observed afterwards; numeric for with init/limit/step given as numbers or numeral strings from every " +
+			"storage kind, inside functions called with changing operand types and after caught operand errors",
 		Modes:     []luaprop.Mode{{Name: "core", Features: luagen.CoreFeatures(), Weight: 5}, {Name: "core-bigk", Features: bigk(luagen.CoreFeatures()), Weight: 1},
 			{Name: "fragment", Gen: luaprop.FragmentProgram, Weight: 3},
 			{Name: "w5-matrix", Gen: luagen.W5C01Program, Weight: 2}},
